@@ -45,7 +45,7 @@ static int cmd_replay(int argc, char **argv) {
 	if (plan.fullmem_model) exec::enable_shipped_full_mem_model();
 	// a violation inside the per-process warm-up history itself is replayed as what it is: the first history of a process
 	const bool is_warmup_plan = plan.property == "warmup";
-	if (!is_warmup_plan) { gen::Context wgc; wgc.property = plan.property; gen::init_context(wgc); exec::Options wopt; wopt.run_index = ~(uint64_t)0; exec::execute(gen::warmup_plan(wgc, plan.warmup_seed), wopt); }
+	if (!is_warmup_plan && !plan.cold) { gen::Context wgc; wgc.property = plan.property; gen::init_context(wgc); exec::Options wopt; wopt.run_index = ~(uint64_t)0; exec::execute(gen::warmup_plan(wgc, plan.warmup_seed), wopt); }
 	if (prelude) for (auto &e : prelude->a) {
 		ops::Plan pp; std::string perr;
 		if (!ops::plan_from_json(e, pp, perr)) { fprintf(stderr, "replay: prelude: %s\n", perr.c_str()); return 2; }
@@ -98,7 +98,8 @@ static int cmd_worker(int argc, char **argv) {
 	gen::init_context(gc);
 	// C13: the first calls of this process (the warm-up history) are made under seeded environments as well
 	const uint64_t warmup_seed = prop == "C13" ? (rt::mix64(seed ^ 0xC13, from) | 1) : 0;
-	{ // warm-up (not counted; see gen::warmup_plan)
+	const bool cold = arg_flag(argc, argv, "--cold") && mode != "enum"; // no warm-up: the first history of this process runs cold (see ops::Plan::cold)
+	if (!cold) { // warm-up (not counted; see gen::warmup_plan)
 		exec::Options wopt; wopt.run_index = ~(uint64_t)0;
 		exec::Report wr = exec::execute(gen::warmup_plan(gc, warmup_seed), wopt);
 		printf("{\"type\":\"warmup\",\"ops\":%d,\"invalid\":%s,\"violations\":%zu}\n", wr.ops_executed, wr.invalid ? "true" : "false", wr.violations.size());
@@ -111,7 +112,8 @@ static int cmd_worker(int argc, char **argv) {
 		uint64_t run_seed = rt::mix64(rt::mix_str(seed, prop.c_str()), idx);
 		double t1 = now_s();
 		ops::Plan plan = gen::generate(gc, run_seed, idx);
-		plan.warmup_seed = warmup_seed;
+		plan.warmup_seed = cold ? 0 : warmup_seed;
+		if (cold && done == 0) plan.cold = true;
 		double t2 = now_s();
 		exec::Options opt; opt.run_index = idx; opt.trace = trace;
 		exec::Report rep = exec::execute(plan, opt);
